@@ -1,5 +1,5 @@
 (* C05 -- proofs about the poisoning state machine of Poison.v *)
-From Coq Require Import List PArith NArith Bool Lia.
+From Coq Require Import List PArith NArith Bool Lia Arith PeanoNat.
 From RV Require Import Txn.PSet Txn.PSetP Txn.Own Txn.OwnP Txn.OwnThmP Txn.Abandon Txn.AbortP Txn.Poison.
 Import ListNotations.
 Open Scope N_scope.
@@ -11,12 +11,20 @@ Lemma fail_ok_facts : forall c f, fail_ok c f = true ->
   | ELogical => mutated f = false
   | EPanic => has_predicate (ck c) = true
   | EIo => True
-  end /\ (f_lost f = true -> f_err f = EIo /\ mutated f = true).
+  | ECorrupt => corrupt_ok (ck c) f = true
+  end /\ (f_lost f = true -> is_storage (f_err f) = true /\ mutated f = true) /\
+  (is_mm (ck c) = true -> mutated f = true -> f_armed f = true).
 Proof.
-  intros c f H. unfold fail_ok in H. rewrite !andb_true_iff in H. destruct H as [[_ H1] H2]. split.
-  - destruct (f_err f); [exact I | apply negb_true_iff; exact H1 | exact H1].
-  - intros Hl. rewrite Hl in H2. simpl in H2. apply andb_true_iff in H2. destruct H2 as [H2 H3].
-    split; [destruct (f_err f); try discriminate; reflexivity | exact H3].
+  intros c f H. unfold fail_ok in H. rewrite !andb_true_iff in H. destruct H as [[[[_ H1] H2] _] H4]. split; [|split].
+  - destruct (f_err f); [exact I | apply negb_true_iff; exact H1 | exact H1 | exact H1].
+  - intros Hl. rewrite Hl in H2. simpl in H2. apply andb_true_iff in H2. exact H2.
+  - intros Hm Hu. rewrite Hm, Hu in H4. simpl in H4. exact H4.
+Qed.
+
+Lemma mutated_cases : forall f, mutated f = false -> f_pos f = 0%nat /\ f_half f = None.
+Proof.
+  intros f H. unfold mutated in H. apply orb_false_iff in H. destruct H as [H1 H2].
+  apply negb_false_iff in H1. apply Nat.eqb_eq in H1. destruct (f_half f); [discriminate|]. split; [exact H1 | reflexivity].
 Qed.
 
 (* the sites named by the property: an error inside rename / delete / restore, a panicking predicate, a
@@ -32,32 +40,121 @@ Definition named_site (k : kind) (f : failure) : bool :=
 Theorem partial_op_poisons : forall c f p, cfail c = Some f -> fail_ok c f = true -> mutated f = true ->
   named_site (ck c) f = true -> poisoned (exec c p) = true.
 Proof.
-  intros c f p Hc Hok Hm Hs. unfold exec. rewrite Hc. cbn [poisoned].
+  intros c f p Hc Hok Hm Hs. unfold exec, exec_with. rewrite Hc. cbn [poisoned].
   apply orb_true_iff. right.
-  destruct (fail_ok_facts c f Hok) as [He _].
+  destruct (fail_ok_facts c f Hok) as (He & _ & Hg).
   unfold named_site in Hs. unfold poisons.
   destruct (ck c); try discriminate Hs; try exact Hs; try exact Hm.
-  - destruct (f_err f); [reflexivity | congruence | discriminate He].
-  - destruct (f_err f); [reflexivity | congruence | discriminate He].
+  - destruct (f_err f); [reflexivity | congruence | discriminate He | reflexivity].
+  - destruct (f_err f); [reflexivity | congruence | discriminate He | reflexivity].
 Qed.
 
-(* every call that fails after its first mutation leaves the transaction unable to commit *)
-Theorem failed_call_blocks : forall c f p, cfail c = Some f -> fail_ok c f = true -> mutated f = true ->
-  blocked (exec c p) = true.
+(* every call that fails after its first mutation -- by an I/O error, an argument / state error or a
+   panicking predicate -- leaves the transaction unable to commit (corrupted reads: staged_partial_blocks) *)
+Theorem failed_call_blocks : forall c f p, cfail c = Some f -> fail_ok c f = true ->
+  is_corrupt (f_err f) = false -> mutated f = true -> blocked (exec c p) = true.
 Proof.
-  intros c f p Hc Hok Hm. unfold blocked, exec. rewrite Hc. cbn [poisoned iolatch].
-  destruct (fail_ok_facts c f Hok) as [He _].
+  intros c f p Hc Hok Hnc Hm. unfold blocked, exec, exec_with. rewrite Hc. cbn [poisoned iolatch].
+  destruct (fail_ok_facts c f Hok) as (He & _ & Hg).
   destruct (f_err f) eqn:E.
   - rewrite !orb_true_iff. right. right. reflexivity.
   - congruence.
   - unfold poisons. destruct (ck c); try discriminate He; rewrite E; simpl; rewrite !orb_true_r; reflexivity.
+  - discriminate Hnc.
+Qed.
+
+Lemma staged_partial_mutated : forall c f, staged_partial c f = true -> mutated f = true.
+Proof.
+  intros c f H. unfold staged_partial in H. unfold mutated. apply orb_true_iff in H. apply orb_true_iff.
+  destruct H as [H|H].
+  - right. unfold has_half in H. destruct (f_half f); [reflexivity | discriminate].
+  - left. apply andb_true_iff in H. destruct H as [_ H]. apply negb_true_iff in H. apply negb_true_iff.
+    apply Nat.eqb_neq. intros E. rewrite E in H. discriminate H.
+Qed.
+
+(* THE statement for every kind of failure, corrupted reads included: whatever a failed call leaves of
+   itself without having reported it as done (a half-executed step; complete steps of a call that is not
+   entry-by-entry, beyond an id-consuming prefix) blocks the commit -- for every call kind, every failure
+   position, every error kind the model allows *)
+Theorem staged_partial_blocks : forall c f p, cfail c = Some f ->
+  fail_ok c f = true -> staged_partial c f = true -> blocked (exec c p) = true.
+Proof.
+  intros c f p Hc Hok Hs.
+  pose proof (staged_partial_mutated c f Hs) as Hm.
+  destruct (is_corrupt (f_err f)) eqn:Ec; [|eapply failed_call_blocks; eassumption].
+  destruct (f_err f) eqn:E; try discriminate Ec. clear Ec.
+  destruct (fail_ok_facts c f Hok) as (He & Hl & Hg). rewrite E in He.
+  unfold blocked, exec, exec_with. rewrite Hc. cbn [poisoned iolatch]. rewrite E.
+  unfold staged_partial in Hs. unfold corrupt_ok in He. unfold poisons.
+  destruct (ck c) eqn:K; cbn [per_entry ratchet_prefix negb andb] in Hs; try discriminate He.
+  - (* KWrite *) apply andb_true_iff in He. destruct He as [H0 Hh]. apply Nat.eqb_eq in H0. rewrite H0 in Hs.
+    apply negb_true_iff in Hh. rewrite Hh in Hs. discriminate Hs.
+  - (* KRename *) rewrite E. simpl. rewrite !orb_true_r. reflexivity.
+  - (* KDelete *) rewrite E. simpl. rewrite !orb_true_r. reflexivity.
+  - (* KRestore *) rewrite Hm. rewrite !orb_true_r. reflexivity.
+  - (* KRetain *) rewrite orb_false_r in Hs. rewrite Hs in He. simpl in He. rewrite He. rewrite !orb_true_r. reflexivity.
+  - (* KExtract *) rewrite orb_false_r in Hs. rewrite Hs in He. simpl in He. rewrite He. rewrite !orb_true_r. reflexivity.
+  - (* KCursor *) rewrite orb_false_r in Hs. rewrite Hs in He. simpl in He. rewrite He. rewrite !orb_true_r. reflexivity.
+  - (* KSavepoint *) apply andb_true_iff in He. destruct He as [H0 Hh]. rewrite H0 in Hs.
+    apply negb_true_iff in Hh. rewrite Hh in Hs. discriminate Hs.
+  - (* KSpDelete *) apply andb_true_iff in He. destruct He as [H0 Hh]. apply Nat.eqb_eq in H0. rewrite H0 in Hs.
+    apply negb_true_iff in Hh. rewrite Hh in Hs. discriminate Hs.
+  - (* KMultimap: every mutation lies inside the guarded region *) rewrite (Hg eq_refl Hm). rewrite !orb_true_r. reflexivity.
+Qed.
+
+Lemma ran_length : forall c f, cfail c = Some f -> fail_ok c f = true -> length (ran c) = f_pos f.
+Proof.
+  intros c f Hc Hok. unfold ran. rewrite Hc. rewrite firstn_length. apply Nat.min_l.
+  unfold fail_ok in Hok. rewrite !andb_true_iff in Hok. destruct Hok as [[[[H _] _] _] _]. apply Nat.leb_le. exact H.
+Qed.
+
+(* corrupted reads, full strength: for every call kind, every position and every
+   lost / half combination the model allows, after a call failed by a corrupted read EITHER the transaction
+   is blocked OR no step is half-executed, the working state is exactly the result of the complete micro
+   steps that ran, and those are nothing at all (`own` unchanged), or only the id-consuming prefix
+   (persistent_savepoint), or the prefix an entry-by-entry call had reported to its caller *)
+Theorem corrupt_atomic_or_blocked : forall c f p, cfail c = Some f ->
+  fail_ok c f = true -> f_err f = ECorrupt ->
+  blocked (exec c p) = true \/
+  (f_half f = None /\ own (exec c p) = run (ran c) (own p) /\
+   poisoned (exec c p) = poisoned p /\ iolatch (exec c p) = iolatch p /\
+   (per_entry (ck c) = true \/ (length (ran c) <= ratchet_prefix (ck c))%nat)).
+Proof.
+  intros c f p Hc Hok E.
+  destruct (staged_partial c f) eqn:Hs; [left; eapply staged_partial_blocks; eassumption|].
+  destruct (blocked (exec c p)) eqn:Hb; [left; reflexivity|]. right.
+  unfold staged_partial in Hs. apply orb_false_iff in Hs. destruct Hs as [Hh Hp].
+  assert (Hn : f_half f = None). { unfold has_half in Hh. destruct (f_half f); [discriminate | reflexivity]. }
+  unfold blocked in Hb. apply orb_false_iff in Hb. destruct Hb as [Hb1 Hb2].
+  unfold exec, exec_with in *. rewrite Hc in *. cbn [own poisoned iolatch] in *. rewrite Hn.
+  apply orb_false_iff in Hb1. destruct Hb1 as [Hp0 Hpo]. apply orb_false_iff in Hb2. destruct Hb2 as [Hi0 _].
+  split; [reflexivity|]. split; [reflexivity|].
+  split; [rewrite Hp0, Hpo; reflexivity|]. split; [rewrite E; simpl; rewrite orb_false_r; reflexivity|].
+  destruct (per_entry (ck c)) eqn:Pe; [left; reflexivity|]. right.
+  simpl in Hp. apply negb_false_iff in Hp. apply Nat.leb_le in Hp.
+  assert (L : length (ran c) = f_pos f) by (apply ran_length; [unfold ran; exact Hc | exact Hok]).
+  rewrite L. exact Hp.
+Qed.
+
+(* ... in particular, for the call kinds that neither work entry by entry nor consume an id first (table and
+   multimap writes, rename, delete, restore, delete_persistent_savepoint): blocked, or
+   NOTHING of the call is staged -- the working state equals the state before the call *)
+Theorem corrupt_nothing_staged_or_blocked : forall c f p,
+  per_entry (ck c) = false -> ratchet_prefix (ck c) = 0%nat -> cfail c = Some f ->
+  fail_ok c f = true -> f_err f = ECorrupt ->
+  blocked (exec c p) = true \/ exec c p = p.
+Proof.
+  intros c f p Pe Rp Hc Hok E.
+  destruct (corrupt_atomic_or_blocked c f p Hc Hok E) as [B|(Hn & Ho & Hpo & Hio & [P|L])]; [left; exact B| congruence |].
+  right. rewrite Rp in L. destruct (ran c) eqn:R; [|simpl in L; inversion L]. simpl in Ho.
+  destruct (exec c p) as [o po io]. destruct p as [o' po' io']. cbn [own poisoned iolatch] in *. congruence.
 Qed.
 
 Lemma exec_poisoned_mono : forall c p, poisoned p = true -> poisoned (exec c p) = true.
-Proof. intros c p H. unfold exec. destruct (cfail c); cbn [poisoned]; rewrite H; reflexivity. Qed.
+Proof. intros c p H. unfold exec, exec_with. destruct (cfail c); cbn [poisoned]; rewrite H; reflexivity. Qed.
 
 Lemma exec_iolatch_mono : forall c p, iolatch p = true -> iolatch (exec c p) = true.
-Proof. intros c p H. unfold exec. destruct (cfail c); cbn [iolatch]; rewrite H; reflexivity. Qed.
+Proof. intros c p H. unfold exec, exec_with. destruct (cfail c); cbn [iolatch]; rewrite H; reflexivity. Qed.
 
 Theorem poisoned_is_sticky : forall cs p, poisoned p = true -> poisoned (run_calls cs p) = true.
 Proof.
@@ -110,17 +207,17 @@ Proof. intros p H. unfold drop_p, abort_p. rewrite H. repeat split; reflexivity.
 
 (* the extracted flag-level function is the flag part of exec *)
 Lemma poisons_flags : forall k f,
-  poisons k f = poisons k (mkfail (if mutated f then 1%nat else 0%nat) (f_err f) None (f_lost f)).
+  poisons k f = poisons k (mkfail (if mutated f then 1%nat else 0%nat) (f_err f) None (f_lost f) (f_armed f)).
 Proof.
-  intros k f. unfold poisons. destruct k; try reflexivity. cbn [f_err f_lost]. unfold mutated at 2. cbn [f_pos f_half].
+  intros k f. unfold poisons. destruct k; try reflexivity. cbn [f_err f_lost f_armed]. unfold mutated at 2. cbn [f_pos f_half].
   destruct (mutated f); reflexivity.
 Qed.
 
 Theorem flags_after_exec : forall c f p, cfail c = Some f ->
   (poisoned (exec c p), iolatch (exec c p)) =
-  flags_after (ck c) (mutated f) (f_err f) (f_lost f) (poisoned p) (iolatch p).
+  flags_after (ck c) (mutated f) (f_err f) (f_lost f) (f_armed f) (poisoned p) (iolatch p).
 Proof.
-  intros c f p Hc. unfold exec, flags_after. rewrite Hc. cbn [poisoned iolatch f_err].
+  intros c f p Hc. unfold exec, exec_with, flags_after. rewrite Hc. cbn [poisoned iolatch f_err].
   rewrite (poisons_flags (ck c) f). reflexivity.
 Qed.
 
@@ -137,7 +234,7 @@ Lemma intxn_exec : forall s0 sh c p, InTxn s0 sh (own p) -> call_ok c p ->
 Proof.
   intros s0 sh c p I (Hb & Ha & Hf).
   pose proof (intxn_run (ran c) s0 sh (own p) I Hb Ha) as I'.
-  unfold exec. destruct (cfail c) as [f|]; cbn [own]; [|exact I'].
+  unfold exec, exec_with. destruct (cfail c) as [f|]; cbn [own]; [|exact I'].
   destruct Hf as [_ Hh]. destruct (f_half f) as [h|]; [|exact I'].
   apply intxn_half; assumption.
 Qed.
@@ -158,32 +255,39 @@ Proof.
   apply intxn_run_calls; [|exact Hok]. unfold start. cbn [own]. apply intxn_begin; assumption.
 Qed.
 
-Lemma existsb_failed_blocks : forall cs p, calls_ok cs p -> existsb failed_after_mutation cs = true ->
+Lemma existsb_partial_blocks : forall cs p, calls_ok cs p ->
+  existsb partial_failed cs = true -> blocked (run_calls cs p) = true.
+Proof.
+  induction cs as [|c cs IH]; intros p Hok He; simpl in *; [discriminate|].
+  destruct Hok as [(_ & _ & Hf) Hr]. apply orb_true_iff in He. destruct He as [He|He].
+  - apply blocked_is_sticky. unfold partial_failed in He.
+    destruct (cfail c) as [f|] eqn:Ec; [|discriminate]. destruct Hf as [Hf _].
+    eapply staged_partial_blocks; eassumption.
+  - apply IH; assumption.
+Qed.
+
+Lemma existsb_failed_nc_blocks : forall cs p, calls_ok cs p -> existsb failed_after_mutation_nc cs = true ->
   blocked (run_calls cs p) = true.
 Proof.
   induction cs as [|c cs IH]; intros p Hok He; simpl in *; [discriminate|].
   destruct Hok as [(_ & _ & Hf) Hr]. apply orb_true_iff in He. destruct He as [He|He].
-  - apply blocked_is_sticky. unfold failed_after_mutation in He.
+  - apply blocked_is_sticky. unfold failed_after_mutation_nc in He.
     destruct (cfail c) as [f|] eqn:Ec; [|discriminate]. destruct Hf as [Hf _].
+    apply andb_true_iff in He. destruct He as [Hm Hn]. apply negb_true_iff in Hn.
     eapply failed_call_blocks; eassumption.
   - apply IH; assumption.
 Qed.
 
-(* THE property, second sentence: for every call sequence and every failure position, once some call
-   failed after its first mutation a commit is never Ok and publishes nothing; if the storage is not
-   latched (the failure was a panicking predicate) the commit's rollback restores exactly the state
-   before begin_write (transaction id consumed, outside registrations as made meanwhile) *)
-Theorem half_applied_never_commits : forall s cs cm, Inv s -> inw s = false -> calls_ok cs (start s) ->
-  existsb failed_after_mutation cs = true ->
+Lemma blocked_commit_restores : forall s cs cm, Inv s -> inw s = false -> calls_ok cs (start s) ->
   let p := run_calls cs (start s) in
+  blocked p = true ->
   snd (commit_p cm p) <> COk /\
   dur (own (fst (commit_p cm p))) = dur s /\ lat (own (fst (commit_p cm p))) = lat s /\
   (iolatch p = false ->
      snd (commit_p cm p) = CPoisoned /\
      own (fst (commit_p cm p)) = bump (run (pin_part (ran_all cs)) s)).
 Proof.
-  intros s cs cm H Hw Hok He p.
-  pose proof (existsb_failed_blocks cs (start s) Hok He) as Hb. fold p in Hb.
+  intros s cs cm H Hw Hok p Hb.
   destruct (blocked_never_commits cm p Hb) as (B1 & B2 & B3).
   assert (I : InTxn s (run (pin_part (ran_all cs)) s) (own p)).
   { apply intxn_run_calls; [|exact Hok]. unfold start. cbn [own]. apply intxn_begin; [apply (i_norm s H Hw) | exact Hw]. }
@@ -191,6 +295,56 @@ Proof.
   intros Hio. unfold blocked in Hb. rewrite Hio, orb_false_r in Hb.
   destruct (poisoned_never_commits cm p Hb) as [_ Hc]. rewrite (Hc Hio). cbn [fst snd own].
   split; [reflexivity|]. apply abort_after_calls; assumption.
+Qed.
+
+(* THE property, second sentence: for every call sequence and every failure
+   position and kind -- I/O error, argument / state error, panicking predicate, CORRUPTED READ -- once some
+   call left an unreported part of itself (a half-executed step, or complete steps of a call that is not
+   entry-by-entry) a commit is never Ok and publishes nothing; if the storage is not latched the commit's
+   rollback restores exactly the state before begin_write (transaction id consumed, outside registrations
+   as made meanwhile) *)
+Theorem half_applied_never_commits : forall s cs cm, Inv s -> inw s = false -> calls_ok cs (start s) ->
+  existsb partial_failed cs = true ->
+  let p := run_calls cs (start s) in
+  snd (commit_p cm p) <> COk /\
+  dur (own (fst (commit_p cm p))) = dur s /\ lat (own (fst (commit_p cm p))) = lat s /\
+  (iolatch p = false ->
+     snd (commit_p cm p) = CPoisoned /\
+     own (fst (commit_p cm p)) = bump (run (pin_part (ran_all cs)) s)).
+Proof.
+  intros s cs cm H Hw Hok He p. apply blocked_commit_restores; try assumption.
+  apply existsb_partial_blocks; assumption.
+Qed.
+
+(* the statement of the first version of this model: a call
+   that failed after its first mutation by anything but a corrupted read *)
+Theorem mutated_noncorrupt_never_commits : forall s cs cm, Inv s -> inw s = false -> calls_ok cs (start s) ->
+  existsb failed_after_mutation_nc cs = true ->
+  let p := run_calls cs (start s) in
+  snd (commit_p cm p) <> COk /\
+  dur (own (fst (commit_p cm p))) = dur s /\ lat (own (fst (commit_p cm p))) = lat s /\
+  (iolatch p = false ->
+     snd (commit_p cm p) = CPoisoned /\
+     own (fst (commit_p cm p)) = bump (run (pin_part (ran_all cs)) s)).
+Proof.
+  intros s cs cm H Hw Hok He p. apply blocked_commit_restores; try assumption.
+  apply existsb_failed_nc_blocks; assumption.
+Qed.
+
+(* conversely: what a sequence of calls with corrupted-read failures leaves when it is NOT blocked is the run
+   of complete, reported steps only -- so a commit publishes no half-executed step *)
+Lemma unblocked_no_half : forall cs p, calls_ok cs p ->
+  blocked (run_calls cs p) = false ->
+  Forall (fun c => match cfail c with Some f => staged_partial c f = false | None => True end) cs.
+Proof.
+  induction cs as [|c cs IH]; intros p Hok Hb; [constructor|].
+  change (run_calls (c :: cs) p) with (run_calls cs (exec c p)) in Hb.
+  simpl in Hok. destruct Hok as [Hc Hr]. constructor; [|eapply IH; eassumption].
+  destruct (cfail c) as [f|] eqn:Ec; [|exact I].
+  destruct (staged_partial c f) eqn:Hs; [|reflexivity]. exfalso.
+  destruct Hc as (_ & _ & Hf). rewrite Ec in Hf. destruct Hf as [Hf _].
+  pose proof (staged_partial_blocks c f p Ec Hf Hs) as B.
+  pose proof (blocked_is_sticky cs (exec c p) B) as B'. congruence.
 Qed.
 
 (* THE property, first sentence, for every way of ending: abort(), Drop, commit() of a poisoned
@@ -235,4 +389,95 @@ Proof.
   pose proof (it_dur _ _ _ I) as Hd. pose proof (it_lat _ _ _ I) as Hl.
   unfold commit_p, abort_p, drop_p. rewrite Hio. destruct (poisoned p); cbn [fst snd own abort_latched dur lat];
     repeat split; try reflexivity; assumption.
+Qed.
+
+(* ================================================================ corrupted reads: the extracted outcome test *)
+
+(* whatever call of whatever kind fails by a corrupted read at whatever position the model allows, in a
+   transaction that was not poisoned before: the pair (unreported part staged?, poisoned afterwards?) passes
+   the extracted test the correspondence applies to the observed pair *)
+Theorem corrupt_outcome_sound : forall c f p, cfail c = Some f -> fail_ok c f = true -> f_err f = ECorrupt ->
+  poisoned p = false ->
+  corrupt_outcome_ok (ck c) (staged_partial c f) (poisoned (exec c p)) = true.
+Proof.
+  intros c f p Hc Hok E Hp. unfold exec, exec_with. rewrite Hc. cbn [poisoned]. rewrite Hp. cbn [orb].
+  destruct c as [k m cf]. destruct f as [pos e h l a]. cbn in E. subst e. cbn [ck] in *.
+  unfold fail_ok in Hok. cbn [f_pos f_err f_lost f_armed ck micro] in Hok.
+  rewrite !andb_true_iff in Hok. destruct Hok as [[[[_ Hco] Hl] Ha1] Ha2].
+  destruct pos as [|[|pos]]; destruct h as [h|]; destruct l; destruct a; destruct k;
+    try (cbn in Hco; discriminate Hco); try (cbn in Hl; discriminate Hl);
+    try (cbn in Ha1; discriminate Ha1); try (cbn in Ha2; discriminate Ha2);
+    vm_compute; reflexivity.
+Qed.
+
+Theorem corrupt_poison_sound : forall c f p, cfail c = Some f -> fail_ok c f = true -> f_err f = ECorrupt ->
+  poisoned p = false -> corrupt_poison_ok (ck c) (poisoned (exec c p)) = true.
+Proof.
+  intros c f p Hc Hok E Hp. pose proof (corrupt_outcome_sound c f p Hc Hok E Hp) as H.
+  unfold corrupt_poison_ok. destruct (staged_partial c f); rewrite H; [apply orb_true_r | reflexivity].
+Qed.
+
+(* ================================================================ the code before the PartialUpdateGuard *)
+
+(* One committed data tree [1;2;3] (page 3: the leaf of a multimap key's subtree).  MultimapTable::insert on
+   that key: the subtree is rewritten into the fresh page 4 and page 3 -- still named by the top-level entry --
+   goes to the freed queue; then the second descent of the top-level tree hits a corrupted read.  With the
+   guard (the code as it is) the transaction is poisoned: the commit is refused and the state restored.
+   WITHOUT the guard (`poisons_unguarded`, the code before commit 90d01ff of /repo) nothing blocks the
+   commit: it returns Ok and publishes a state in which page 3 is in the committed data tree but FREE in the
+   allocator (its DATA_FREED record was processed by the post-commit epilogue: no reader pins it) and page 4
+   is allocated but owned by nobody -- the property is false of that variant. *)
+Definition w_hist : list op := [OBeginWrite; OMutData [1;2;3]%positive; OCommitDur [1;2;3]%positive [10;11]%positive [] false true].
+Definition w_half : halfstep :=
+  mkhalf [4%positive] [] (mkwv [1;2;3]%positive [10;11]%positive [3%positive] [] [] None []).
+Definition w_calls : list call :=
+  [ mkcall KMultimap [OMutData [1;2;4]%positive] (Some (mkfail 0 ECorrupt (Some w_half) false true)) ].
+Definition w_commit : op := OCommitDur [1;2;3]%positive [10;12]%positive [] false true.
+
+Theorem unguarded_multimap_refuted :
+  let s := run w_hist init in
+  Inv s /\ inw s = false /\ calls_ok w_calls (start s) /\ existsb partial_failed w_calls = true /\
+  (* the code as it is *)
+  commit_p w_commit (run_calls w_calls (start s)) = (mkptx (bump s) true false, CPoisoned) /\
+  (* the variant without the guard *)
+  let q := run_calls_with poisons_unguarded w_calls (start s) in
+  blocked q = false /\ snd (commit_p w_commit q) = COk /\
+  let s' := own (fst (commit_p w_commit q)) in
+  own_checkb s' = false /\
+  In 3%positive (vdata (lat s')) /\ ~ In 3%positive (alloc s') /\
+  In 4%positive (alloc s') /\ ~ In 4%positive (owned_c s').
+Proof.
+  cbv zeta. split.
+  { apply inv_reach; [apply inv_init|]. vm_compute. repeat split; reflexivity. }
+  vm_compute. repeat split; try reflexivity; try (left; reflexivity); try (right; left; reflexivity);
+    try (right; right; left; reflexivity).
+  - intros H. repeat (destruct H as [H|H]; [discriminate H|]). exact H.
+  - intros H. repeat (destruct H as [H|H]; [discriminate H|]). exact H.
+Qed.
+
+(* ================================================================ the code before c277127 (extract_if step unwinds) *)
+
+(* extract_if over the committed tree [1;2;3]: the scan has allocated the fresh page 4 for a rebuilt leaf when a
+   decoder (or a user compare) panics inside the step; the root was not swapped.  The code as it is poisons
+   (an unwind out of a step counts like a predicate panic): commit refused, state restored.  The variant that
+   only notices predicate panics commits Ok a state in which page 4 is allocated and owned by nobody. *)
+Definition x_half : halfstep :=
+  mkhalf [4%positive] [] (mkwv [1;2;3]%positive [10;11]%positive [] [] [] None []).
+Definition x_calls : list call :=
+  [ mkcall KExtract [OMutData [1;2;4]%positive] (Some (mkfail 0 EPanic (Some x_half) false false)) ].
+
+Theorem unguarded_extract_unwind_refuted :
+  let s := run w_hist init in
+  Inv s /\ inw s = false /\ calls_ok x_calls (start s) /\ existsb partial_failed x_calls = true /\
+  commit_p w_commit (run_calls x_calls (start s)) = (mkptx (bump s) true false, CPoisoned) /\
+  let q := run_calls_with poisons_step_unwind_unguarded x_calls (start s) in
+  blocked q = false /\ snd (commit_p w_commit q) = COk /\
+  let s' := own (fst (commit_p w_commit q)) in
+  own_checkb s' = false /\ In 4%positive (alloc s') /\ ~ In 4%positive (owned_c s').
+Proof.
+  cbv zeta. split.
+  { apply inv_reach; [apply inv_init|]. vm_compute. repeat split; reflexivity. }
+  vm_compute. repeat split; try reflexivity; try (left; reflexivity); try (right; left; reflexivity);
+    try (right; right; left; reflexivity).
+  intros H. repeat (destruct H as [H|H]; [discriminate H|]). exact H.
 Qed.
